@@ -22,18 +22,18 @@ func init() {
 		ID: "C06", Bubble: false, Run: runC06, QuickRuns: 2500,
 		Rule: "one run = AIMD / Vegas / Gradient in a state reached by a seeded prefix history (0..300 samples incl. faults), then (i) every drop sample of the whole history is checked for 'never raises' (AIMD: exact back-off value by rational arithmetic for dyadic ratios), (ii) a sustained run of drop samples with constant rtt (0, 1, baseline, multiples, 2^40) must reach the floor within a configuration-derived number of samples; " +
 			"non-trivial = the prefix changed the estimate and the sustained run had to move the estimate; distinct = distinct choice tapes",
-		Real:       []string{"limit.AIMDLimit", "limit.VegasLimit", "limit.GradientLimit", "limit/functions", "measurements.MinimumMeasurement"},
-		Stubs:      []string{"logger"},
-		FaultKinds: []string{"F-drop", "F-latency"},
+		Real:        []string{"limit.AIMDLimit", "limit.VegasLimit", "limit.GradientLimit", "limit/functions", "measurements.MinimumMeasurement"},
+		Stubs:       []string{"logger"},
+		FaultKinds:  []string{"F-drop", "F-latency"},
 		Assumptions: []string{"Vegas probe multiplier >= 4 in this check; bounds are deliberately generous (DESIGN.md §3 C06)"},
 	})
 	Register(&Prop{
 		ID: "C07", Bubble: false, Run: runC07, QuickRuns: 2500,
 		Rule: "one run = AIMD / Vegas / Gradient / Gradient2 in a state reached by a seeded prefix history (incl. drops and zero RTTs); (a) every non-drop sample with in-flight below half the estimate (below the estimate for AIMD) must not raise it; (b) a healthy run (no drops, in-flight >= 2 x ceiling, constant rtt not above the baseline) must raise the estimate again and bring it within one of the ceiling within a configuration-derived number of samples (AIMD +increment per sample; Gradient >= queue allowance per non-probe sample); " +
 			"non-trivial = at least one app-limited sample was checked and the healthy run started below the ceiling; distinct = distinct choice tapes",
-		Real:       []string{"limit.AIMDLimit", "limit.VegasLimit", "limit.GradientLimit", "limit.Gradient2Limit", "measurements.*"},
-		Stubs:      []string{"logger"},
-		FaultKinds: []string{"F-idle", "F-drop", "F-latency"},
+		Real:        []string{"limit.AIMDLimit", "limit.VegasLimit", "limit.GradientLimit", "limit.Gradient2Limit", "measurements.*"},
+		Stubs:       []string{"logger"},
+		FaultKinds:  []string{"F-idle", "F-drop", "F-latency"},
 		Assumptions: []string{"Vegas probe multiplier >= 4, default alpha/beta/threshold functions; queue allowance >= 1"},
 	})
 }
